@@ -7,13 +7,20 @@
 (* for every --start, with and without --verify.                                                           *)
 EXTENDS BlockParser, Json
 
-CONSTANTS MaxT, VerifyCallbacks
-Kinds == <<"none", "tx", "merkle", "prev", "foreign">>
+CONSTANTS MaxT, VerifyCallbacks, KSet       \* KSet: indexes into Kinds explored by this configuration
+Kinds == <<"none", "tx", "merkle", "prev", "foreign", "nonce", "chain">>
+(*   "nonce"   a header field that no check covers (time, bits, nonce) is changed: the block no longer hashes to its      *)
+(*             indexed hash, but merkle root, prev-hash link and (above height 0) everything verified still hold          *)
+(*   "chain"   the block is replaced by a self-consistent block of a foreign branch whose prev-hash is the hash of what   *)
+(*             is STORED at the height below (a run of them is a branch that links internally, not to the index)          *)
+NK == 7
 
-\* the stored block at height h altered by kind k gets the id 100*k + h  (k = 1 is intact: id h + 100)
+\* the stored block at height h altered by kind k gets the id 100*k + h  (k = 1 is intact: the id is h itself)
 Id(h, k) == IF k = 1 THEN h ELSE 100 * k + h
-Facts(h, k) == [prev |-> IF Kinds[k] \in {"prev", "foreign"} THEN -7 ELSE h - 1,
-                merkleOk |-> Kinds[k] \notin {"tx", "merkle"}]
+\* the hash a block is known by depends on its header only: "tx" leaves it the indexed one
+HdrId(h, k) == IF Kinds[k] \in {"none", "tx"} THEN h ELSE Id(h, k)
+Facts(h, k, below) == [prev |-> IF Kinds[k] \in {"prev", "foreign"} THEN -7 ELSE IF Kinds[k] = "chain" THEN below ELSE h - 1,
+                       merkleOk |-> Kinds[k] \notin {"tx", "merkle"}]
 
 Scen(T, ks, s, e, vf, cb) ==
   [recs |-> [i \in 1..(T + 1) |-> [id |-> i - 1, h |-> i - 1, prev |-> i - 2, data |-> TRUE, valid |-> 5, failed |-> FALSE,
@@ -22,12 +29,12 @@ Scen(T, ks, s, e, vf, cb) ==
    files |-> {0},
    facts |-> [b \in {Id(h, ks[h + 1]) : h \in 0..T} |->
                 LET h == IF b < 100 THEN b ELSE b % 100
-                    k == IF b < 100 THEN 1 ELSE b \div 100 IN Facts(h, k)],
+                    k == IF b < 100 THEN 1 ELSE b \div 100 IN Facts(h, k, IF h = 0 THEN -1 ELSE HdrId(h - 1, ks[h]))],
    genesis |-> 0, start |-> s, end |-> e, verify |-> vf, cb |-> cb, limit |-> NONE, kill |-> FALSE,
    tip |-> T, active |-> [h \in 0..T |-> Id(h, ks[h + 1])], indexed |-> [h \in 0..T |-> h], kinds |-> ks]
 
 \* with --end an altered block above the range must not matter
-MCAll == UNION {{Scen(T, ks, s, e, vf, cb) : ks \in [1..(T + 1) -> 1..5], s \in 0..T, e \in {NONE} \cup 1..T,
+MCAll == UNION {{Scen(T, ks, s, e, vf, cb) : ks \in [1..(T + 1) -> KSet], s \in 0..T, e \in {NONE} \cup 1..T,
                                             vf \in BOOLEAN, cb \in VerifyCallbacks} : T \in 0..MaxT}
 MCScen == {x \in MCAll : x.end = NONE \/ x.end > x.start}
 
